@@ -86,6 +86,35 @@ def dir_jobs(ctx, first_id, workdir):
     return jobs
 
 
+def sequence_jobs(ctx, first_id, workdir):
+    """several uses of tasks in ONE process: (a) a task with a templated dir run directly and then as a stage whose variables change the
+    template's value; (b) tasks without any env run as parallel stages: each sees its own TASK_NAME in every command and hook"""
+    jobs = []
+    for order in (["t", "p"], ["p", "t"], ["t", "p", "t"]):
+        jid = first_id + len(jobs)
+        proj = os.path.join(workdir, "cli", str(jid), "proj")
+        pr = 'echo "%s:$(pwd)" >> "$PROJ/out"'
+        doc = {"tasks": {"t": {"command": [pr % "cmd"], "before": [pr % "before"], "after": [pr % "after"], "dir": "{{.PD}}/{{.Area}}", "variables": {"Area": "alpha"}}},
+               "pipelines": {"p": [{"task": "t", "variables": {"Area": "beta"}}]}}
+        want = []
+        for tgt in order:
+            d = proj + ("/alpha" if tgt == "t" else "/beta")
+            want += ["before:" + d, "cmd:" + d, "after:" + d]
+        jobs.append({"id": jid, "files": {"cfg.json": clilib.jcfg(doc), "alpha/x": "", "beta/x": ""}, "argv": ["-c", "cfg.json", "--raw", "--set", "PD=" + proj] + order,
+                     "keep": ["out"], "kind": "seq-dir", "mode": "+".join(order), "want": want})
+    for n in (2, 3):
+        jid = first_id + len(jobs)
+        # (one file per task: concurrent appends to one file can interleave)
+        tasks = {"n%d" % i: {"command": ['echo "c1.%d=$TASK_NAME" >> "$PROJ/out.%d"; sleep 0.15' % (i, i), 'echo "c2.%d=$TASK_NAME" >> "$PROJ/out.%d"' % (i, i)],
+                              "after": ['echo "a.%d=$TASK_NAME" >> "$PROJ/out.%d"' % (i, i)]} for i in range(n)}
+        doc = {"tasks": tasks, "pipelines": {"p": [{"task": "n%d" % i} for i in range(n)]}}
+        want = sorted("%s.%d=n%d" % (k, i, i) for i in range(n) for k in ("c1", "c2", "a"))
+        for rep in range(3):
+            jobs.append({"id": first_id + len(jobs), "files": {"cfg.json": clilib.jcfg(doc)}, "argv": ["-c", "cfg.json", "--raw", "p"], "keep": ["out.%d" % i for i in range(n)], "kind": "seq-taskname",
+                         "mode": "parallel-%d" % n, "want": want})
+    return jobs
+
+
 HEADER = """From Coq Require Import List Arith NArith Bool. Import ListNotations.
 From TaskctlV Require Import Model.Stage Model.Env Corr.EnvCorr.
 """
@@ -108,6 +137,7 @@ def run(ctx):
     else:
         jobs = env_jobs(ctx)
         jobs += dir_jobs(ctx, len(jobs), ctx.workdir)
+        jobs += sequence_jobs(ctx, len(jobs), ctx.workdir)
     out = clilib.run_cli(ctx.workdir, jobs)
     items = []
     index = {}
@@ -117,6 +147,16 @@ def run(ctx):
         res.count(j["kind"] + "-" + j["mode"])
         if r["timeout"] or clilib.crashed(r) or r["rc"] != 0:
             res.violations.append({"class": None, "what": "taskctl failed, hung or crashed on a valid layered configuration (rc=%s)" % r.get("rc"), "case": j, "observed": r})
+            continue
+        if j["kind"].startswith("seq-"):
+            got = [l for l in (r["files"].get("out") or "").split("\n") if l]
+            if j["kind"] == "seq-taskname":
+                got = sorted(l for fn in sorted(r["files"]) for l in r["files"][fn].split("\n") if l)
+            res.nontrivial_keys.add(json.dumps([j["kind"], j["mode"]]))
+            if got != j["want"]:
+                res.violations.append({"class": None, "what": ("a task run directly and as a stage in one process: commands / hooks did not run in the directory of THIS use" if j["kind"] == "seq-dir"
+                                                               else "parallel stages without any env: a command or hook saw another task's TASK_NAME"),
+                                       "case": j, "observed": got})
             continue
         lines = dict(l.split("=", 1) if "=" in l.split(":", 1)[0] else l.split(":", 1) for l in (r["files"].get("out") or "").split("\n") if l)
         I = Intern()
